@@ -336,17 +336,28 @@ def eval_c08(case, oFile, oRules, a, oConfig, events):
     m2 = _model(f2)
     if m != m2:
         diff = None
-        for i, (x, y) in enumerate(itertools.zip_longest(m, m2)):
-            if x != y:
-                diff = (i, x, y)
-                break
+        rv1, rv2 = [t[:2] for t in m], [t[:2] for t in m2]
+        if rv1 != rv2:  # roles / values first; indent only when those agree everywhere
+            for i, (x, y) in enumerate(itertools.zip_longest(rv1, rv2)):
+                if x != y:
+                    diff = (i, m[i] if i < len(m) else None, m2[i] if i < len(m2) else None)
+                    break
+        else:
+            for i, (x, y) in enumerate(zip(m, m2)):
+                if x != y:
+                    diff = (i, x, y)
+                    break
         i, x, y = diff
         kind = "len" if x is None or y is None else ("role" if x[0] != y[0] else ("value" if x[1] != y[1] else "indent"))
-        culprit = _c08_culprit(case, a, oConfig, mode="model") if kind != "indent" else "<indent>"
-        what = "%s->%s" % (x[0] if x else None, y[0] if y else None) if kind in ("role", "len") else kind
         ctx = [v for _, v, _ in m[max(0, i - 4) : i + 3]]
-        out["violations"].append({"key": "%s:model-differs-from-reparse:%s" % (culprit, what), "detail": {"index": i, "model": x, "fresh": y, "context": ctx}})
-        return out
+        if kind != "indent":
+            culprit = _c08_culprit(case, a, oConfig, mode="model")
+            what = "%s->%s" % (x[0] if x else None, y[0] if y else None) if kind in ("role", "len") else kind
+            out["violations"].append({"key": "%s:model-differs-from-reparse:%s" % (culprit, what), "detail": {"index": i, "model": x, "fresh": y, "context": ctx}})
+            return out
+        # only cached indent levels differ: name the token class, and go on to compare the reports (a stale
+        # indent shows up as a violation the fix run does not report)
+        out["violations"].append({"key": "<indent>:model-differs-from-reparse:indent:%s" % x[0], "detail": {"index": i, "model": x, "fresh": y, "context": ctx}})
     r2.check_rules(bAllPhases=False)
     v_fresh = vsgapi.violations_of(r2)
     if v_end != v_fresh:
